@@ -36,6 +36,10 @@ def run_check(prop: str, tier: str, repo: str, seed: int, write: bool = True, re
         prog = Program(repo)
         ctx = Ctx(prog, rep, tier)
         mod.check(ctx)
+        if tier == "thorough":
+            from .thorough import extras
+
+            extras(ctx, prop)
         return rep.finish()
     except AnalysisError as e:
         print(f"ANALYSIS-ERROR property={prop} {e}")
@@ -77,7 +81,10 @@ def main(argv=None) -> int:
     except ValueError:
         seed = 0
     if a.cmd == "check":
-        return run_check(a.prop.upper(), a.tier, a.repo, seed)
+        code = run_check(a.prop.upper(), a.tier, a.repo, seed)
+        sys.stdout.flush()
+        sys.stderr.flush()
+        os._exit(code)  # skip the slow interpreter teardown after a mypy build
     if a.cmd == "explain":
         with open(a.file) as fh:
             r = json.load(fh)
